@@ -224,8 +224,11 @@ def run(ctx):
     raises = [n for n in walk_no_nested(fn) if isinstance(n, ast.Raise)]
     ctx.instance(R5, "validate_value[raises only FIXMessageError]", bool(raises) and all(n.exc is not None and unparse(n.exc.func if isinstance(n.exc, ast.Call) else n.exc) == "FIXMessageError" for n in raises),
                  "validate_value raises something else than FIXMessageError", loc(fn))
-    errv = next((unparse(n.targets[0]) for n in walk_no_nested(fn) if isinstance(n, ast.Assign) and isinstance(n.targets[0], ast.Name)
-                 and isinstance(n.value, ast.Call) and unparse(n.value.func).endswith("_validate_special_cases")), "err")
+    # the verdict local: what the per-datatype helpers' results are assigned to
+    from collections import Counter
+    tg = Counter(unparse(n.targets[0]) for n in walk_no_nested(fn) if isinstance(n, ast.Assign) and isinstance(n.targets[0], ast.Name)
+                 and isinstance(n.value, ast.Call) and "_validate_value_" in unparse(n.value.func))
+    errv = tg.most_common(1)[0][0] if tg else "err"
     err_raise = [n for n in g.nodes if n.kind == "stmt" and isinstance(n.ast, ast.Raise) and any(tv and a == errv for t, lab in g.guards(n.id, exc=False) for a, tv in facts(t, lab == "true"))]
     ctx.instance(R5, "validate_value[error string => FIXMessageError]", len(err_raise) == 1, "a helper's error string is not turned into a FIXMessageError at exactly one site", loc(fn))
     asserts = [n for n in walk_no_nested(fn) if isinstance(n, ast.Assert)]
@@ -242,22 +245,47 @@ def run(ctx):
         ctx.instance(R5, f"{q.split('.')[-1]}[verdict is None or an error string]", ok, f"{q} returns something else than None / an error string", loc(hf))
 
     # ------------------------------------------------------------------ rule 6
-    sp = repo.func("SchemaField._validate_special_cases")
-    sg = CFG(sp)
-    clears = [n for n in sg.nodes if n.kind == "stmt" and isinstance(n.ast, ast.Assign)]
-    ok = len(clears) == 1 and unparse(clears[0].ast.value) == "None"
-    if ok:
+    # analysed on validate_value with the special-case hook inlined (wherever its statements live today): every write of the
+    # verdict that is not the datatype dispatch itself is `verdict = None` under tag == '16' and value == '0'
+    from sa.normalize import inlined_copy
+    hook = repo.functions.get("SchemaField._validate_special_cases")
+    vfn, _rep = inlined_copy(fn, {"_validate_special_cases": hook}, "SchemaField")
+    vg = CFG(vfn)
+    valp = fn.args.args[1].arg
+    special, unknown = [], []
+    for n in vg.nodes:
+        if n.kind != "stmt" or not isinstance(n.ast, (ast.Assign, ast.AugAssign, ast.AnnAssign)):
+            continue
+        tgt = n.ast.targets[0] if isinstance(n.ast, ast.Assign) else n.ast.target
+        if unparse(tgt) != errv:
+            continue
+        v = n.ast.value
+        if isinstance(v, ast.Call) and "_validate_value_" in unparse(v.func):
+            continue  # datatype dispatch
         fs = set()
-        for t, lab in sg.guards(clears[0].id, exc=False):
+        for t, lab in vg.guards(n.id, exc=False):
             fs |= facts(t, lab == "true")
-        ok = ("self.tag == '16'", True) in fs and ("value == '0'", True) in fs
-    rets = [n for n in walk_no_nested(sp) if isinstance(n, ast.Return)]
-    ok = ok and len(rets) == 1 and unparse(rets[0].value) == unparse(clears[0].ast.targets[0]) and unparse(rets[0].value) == sp.args.args[2].arg
+        in_dispatch = any(tv and re.fullmatch(r"\w+ (==|in) .+", a) and not a.startswith(("self.tag", valp + " ")) for a, tv in fs)
+        before_dispatch = any(m.kind == "stmt" and isinstance(m.ast, ast.Assign) and unparse(m.ast.targets[0]) == errv and isinstance(m.ast.value, ast.Call)
+                              and "_validate_value_" in unparse(m.ast.value.func) and vg.reaches(n.id, m.id, exc=False) for m in vg.nodes)
+        if isinstance(v, ast.Constant) and v.value is None and (in_dispatch or before_dispatch):
+            continue  # datatype with nothing to check / the initial value in front of the dispatch
+        if isinstance(v, ast.Call):
+            unknown.append(n)
+            continue
+        special.append((n, fs))
+    ok = len(special) == 1 and not unknown
+    if ok:
+        n, fs = special[0]
+        ok = isinstance(n.ast, ast.Assign) and unparse(n.ast.value) == "None" and ("self.tag == '16'", True) in fs and (f"{valp} == '0'", True) in fs
     ctx.instance(R6, "_validate_special_cases[only clears, only tag 16 value '0']", ok,
-                 "the special case does more than clearing the error for EndSeqNo(16)='0': it widens (or narrows) another field's language", loc(sp))
-    calls = [c for c in walk_no_nested(fn) if isinstance(c, ast.Call) and unparse(c.func).endswith("_validate_special_cases")]
-    ctx.instance(R6, "validate_value[special case applied to the helper verdict]", len(calls) == 1 and [unparse(a) for a in calls[0].args] == [fn.args.args[1].arg, errv],
-                 "the special-case hook is not applied exactly once to (value, err)", loc(fn))
+                 "the special case does more than clearing the error for EndSeqNo(16)='0': it widens (or narrows) another field's language", loc(hook or fn))
+    # ... and it is applied after the dispatch: the clearing write is not followed by another dispatch write
+    order_ok = bool(special) and all(not any(isinstance(m.ast, ast.Assign) and unparse(m.ast.targets[0]) == errv and isinstance(m.ast.value, ast.Call)
+                                             and vg.reaches(n.id, m.id, exc=False) for m in vg.nodes if m.kind == "stmt" and m.id != n.id) for n, _ in special)
+    raise_after = bool(special) and all(any(vg.reaches(n.id, r.id, exc=False) for r in vg.nodes if r.kind == "stmt" and isinstance(r.ast, ast.Raise)) for n, _ in special)
+    ctx.instance(R6, "validate_value[special case applied to the helper verdict]", order_ok and raise_after and not unknown,
+                 "the special-case hook is not applied exactly once to (value, err), after the datatype check and before the verdict is raised", loc(fn))
 
 
 # -------------------------------------------------------------------------------- helpers
